@@ -18,6 +18,7 @@ import (
 	common2 "github.com/elastos/Elastos.ELA/core/types/common"
 	"github.com/elastos/Elastos.ELA/core/types/interfaces"
 	"github.com/elastos/Elastos.ELA/core/types/payload"
+	crstate "github.com/elastos/Elastos.ELA/cr/state"
 	"github.com/elastos/Elastos.ELA/crypto"
 
 	"verif/evid"
@@ -34,6 +35,18 @@ type apRes struct {
 	Context  string  `json:"context"`
 	Accepted bool    `json:"accepted"`
 	Producer string  `json:"producer_state"`
+	Path     string  `json:"path"` // producer | cr-member
+	H        uint32  `json:"h"`
+	Control  bool    `json:"control"`
+	Foreign  bool    `json:"foreign_input"`
+}
+
+type apFixture struct {
+	n        *lightnode.Node
+	fund     interfaces.Transaction
+	payer    lightnode.Key
+	attacker lightnode.Key
+	next     int
 }
 
 func runAPConfirm(scr string) []apRes {
@@ -65,29 +78,82 @@ func runAPConfirm(scr string) []apRes {
 		pstate = p.State().String()
 	}
 	var fundOuts []*common2.Output
-	for i := 0; i < 16; i++ {
+	for i := 0; i < 120; i++ {
 		fundOuts = append(fundOuts, lightnode.Output(payer.StandardHash(), 1000))
 	}
 	fund, err := n.Fund("c01-ap", fundOuts...)
 	if err != nil {
 		evid.Fatalf("fund: %v", err)
 	}
+	nft := n.Params.DPoSConfiguration.NFTStartHeight
+	late := uint32(h0 + 20)
+	f := &apFixture{n: n, fund: fund, payer: payer, attacker: lightnode.FixedKey("c01-attacker", 0)}
+	type vec = apVec
+	one := []inRef{{0, 0}}
+	none := []inRef{}
+	vectors := []vec{
+		{"control: 1000 -> 1000 (fee 0)", late, []int64{1000}, one, false, true, false},
+		{"negative output: 1000 -> 1000000, -999000", late, []int64{1000000, -999000}, one, false, false, false},
+		{"wrapping outputs: 1000 -> 2^62 x4, 1000", late, []int64{1 << 62, 1 << 62, 1 << 62, 1 << 62, 1000}, one, false, false, false},
+		{"control: two distinct inputs -> 2000", late, []int64{2000}, []inRef{{0, 0}, {1, 0}}, false, true, false},
+		{"same outpoint twice (equal sequence) -> 2000", late, []int64{2000}, []inRef{{0, 0}, {0, 0}}, false, false, false},
+		{"same outpoint twice (different sequence) -> 2000", late, []int64{2000}, []inRef{{0, 0}, {0, 1}}, false, false, false},
+		{"same outpoint three times -> 3000", late, []int64{3000}, []inRef{{0, 0}, {0, 1}, {0, 2}}, false, false, false},
+		{"A,B,A' -> 3000", late, []int64{3000}, []inRef{{0, 0}, {1, 0}, {0, 1}}, false, false, false},
+	}
+	// the height gate of this type: NFTStartHeight -1 / = / +1, with and without inputs
+	for _, h := range []uint32{nft - 1, nft, nft + 1} {
+		tag := fmt.Sprintf("h=NFTStartHeight%+d", int64(h)-int64(nft))
+		vectors = append(vectors,
+			vec{tag + ": zero cost shape (nothing in, nothing out)", h, nil, none, true, h <= nft, false},
+			vec{tag + ": no inputs, output 5000, bare", h, []int64{5000}, none, true, false, false},
+			vec{tag + ": no inputs, output 5000, with attribute", h, []int64{5000}, none, false, false, false},
+			vec{tag + ": no inputs, outputs 1 and 2^62", h, []int64{1, 1 << 62}, none, true, false, false},
+			vec{tag + ": 1000 -> 1000", h, []int64{1000}, one, false, h > nft, false},
+			vec{tag + ": 1000 -> 1000000", h, []int64{1000000}, one, false, false, false},
+			vec{tag + ": 1000 -> 900", h, []int64{900}, one, false, false, false},
+		)
+	}
+	out := f.runVectors("producer", nodeKey, pstate, vectors, 0)
+
+	// ---- the council-member path of SpecialContextCheck: in the election period an inactive
+	// member activates through the same transaction type
+	crKey := lightnode.FixedKey("c01-cr-node", 0)
+	committee := n.Chain.GetCRCommittee()
+	var cid common.Uint168
+	cid[0] = 0x67
+	cid[1] = 0xC1
+	committee.InElectionPeriod = true
+	committee.Members[cid] = &crstate.CRMember{Info: payload.CRInfo{CID: cid, NickName: "verif"}, MemberState: crstate.MemberInactive, DPOSPublicKey: crKey.Compressed}
+	var crVectors []vec
+	for _, h := range []uint32{nft - 1, nft, nft + 1, late} {
+		tag := fmt.Sprintf("cr-member h=NFTStartHeight%+d", int64(h)-int64(nft))
+		crVectors = append(crVectors,
+			vec{tag + ": zero cost shape (nothing in, nothing out)", h, nil, none, true, h <= nft, false},
+			vec{tag + ": no inputs, output 5000, bare", h, []int64{5000}, none, true, false, false},
+			vec{tag + ": 1000 -> 1000", h, []int64{1000}, one, false, false, false},
+			vec{tag + ": 1000 -> 1000000", h, []int64{1000000}, one, false, false, false},
+			vec{tag + ": somebody else's 1000 -> 900 (no valid signature)", h, []int64{900}, one, false, false, true},
+		)
+	}
+	out = append(out, f.runVectors("cr-member", crKey, "MemberInactive", crVectors, 100)...)
+	return out
+}
+
+type apVec struct {
+	name    string
+	h       uint32
+	outs    []int64
+	ins     []inRef // empty = no inputs
+	bare    bool    // no attributes and no programs (the zero cost shape)
+	control bool
+	foreign bool // the input is not the signer's: the program is signed by another key
+}
+
+func (f *apFixture) runVectors(path string, nodeKey lightnode.Key, pstate string, vectors []apVec, base int) []apRes {
+	n := f.n
 	var out []apRes
-	next := 0
-	for i, vct := range []struct {
-		name string
-		outs []int64
-		ins  []inRef
-	}{
-		{"control: 1000 -> 1000 (fee 0)", []int64{1000}, nil},
-		{"negative output: 1000 -> 1000000, -999000", []int64{1000000, -999000}, nil},
-		{"wrapping outputs: 1000 -> 2^62 x4, 1000", []int64{1 << 62, 1 << 62, 1 << 62, 1 << 62, 1000}, nil},
-		{"control: two distinct inputs -> 2000", []int64{2000}, []inRef{{0, 0}, {1, 0}}},
-		{"same outpoint twice (equal sequence) -> 2000", []int64{2000}, []inRef{{0, 0}, {0, 0}}},
-		{"same outpoint twice (different sequence) -> 2000", []int64{2000}, []inRef{{0, 0}, {0, 1}}},
-		{"same outpoint three times -> 3000", []int64{3000}, []inRef{{0, 0}, {0, 1}, {0, 2}}},
-		{"A,B,A' -> 3000", []int64{3000}, []inRef{{0, 0}, {1, 0}, {0, 1}}},
-	} {
+	for i, vct := range vectors {
 		ap := &payload.ActivateProducer{NodePublicKey: nodeKey.Compressed}
 		buf := new(bytes.Buffer)
 		ap.SerializeUnsigned(buf, 0)
@@ -98,36 +164,44 @@ func runAPConfirm(scr string) []apRes {
 		ap.Signature = sig
 		var outs []*common2.Output
 		for _, v := range vct.outs {
-			outs = append(outs, lightnode.Output(payer.StandardHash(), common.Fixed64(v)))
+			outs = append(outs, lightnode.Output(f.attacker.StandardHash(), common.Fixed64(v)))
 		}
-		attr := common2.NewAttribute(common2.Nonce, []byte(fmt.Sprintf("c01-ap-%d", i)))
-		shape := vct.ins
-		if shape == nil {
-			shape = []inRef{{0, 0}}
+		attrs := []*common2.Attribute{}
+		if !vct.bare {
+			attr := common2.NewAttribute(common2.Nonce, []byte(fmt.Sprintf("c01-ap-%d", base+i)))
+			attrs = append(attrs, &attr)
 		}
 		var ins []*common2.Input
 		distinct := map[int]bool{}
-		for _, ir := range shape {
-			in := lightnode.Input(fund, next+ir.Slot)
+		for _, ir := range vct.ins {
+			in := lightnode.Input(f.fund, f.next+ir.Slot)
 			in.Sequence = ir.Seq
 			ins = append(ins, in)
 			distinct[ir.Slot] = true
 		}
-		next += len(distinct)
-		tx := transaction.CreateTransaction(common2.TxVersion09, common2.ActivateProducer, 0, ap,
-			[]*common2.Attribute{&attr}, ins, outs, 0, nil)
-		p, err := lightnode.SignStandard(tx, payer)
-		if err != nil {
-			evid.Fatalf("sign: %v", err)
+		f.next += len(distinct)
+		if f.next > 110 {
+			evid.Fatalf("C01 ActivateProducer fixture: not enough funded outputs")
 		}
-		tx.SetPrograms([]*program.Program{p})
-		r := apRes{Name: vct.name, Outputs: vct.outs, Input: 1000 * int64(len(distinct)), Inputs: len(ins), Distinct: len(distinct), Producer: pstate}
-		h := uint32(h0 + 20)
-		s := n.SanityCheck(tx, h, nil)
+		tx := transaction.CreateTransaction(common2.TxVersion09, common2.ActivateProducer, 0, ap, attrs, ins, outs, 0, []*program.Program{})
+		if !vct.bare && len(ins) > 0 {
+			signer := f.payer
+			if vct.foreign {
+				signer = f.attacker
+			}
+			p, err := lightnode.SignStandard(tx, signer)
+			if err != nil {
+				evid.Fatalf("sign: %v", err)
+			}
+			tx.SetPrograms([]*program.Program{p})
+		}
+		r := apRes{Name: vct.name, Path: path, H: vct.h, Outputs: vct.outs, Input: 1000 * int64(len(distinct)), Inputs: len(ins), Distinct: len(distinct),
+			Producer: pstate, Control: vct.control, Foreign: vct.foreign}
+		s := n.SanityCheck(tx, vct.h, nil)
 		r.Sanity = s.String()
 		r.Context = "-"
 		if s.Accepted() {
-			_, c := n.ContextCheck(tx, h, nil)
+			_, c := n.ContextCheck(tx, vct.h, nil)
 			r.Context = c.String()
 			r.Accepted = c.Accepted()
 		}
